@@ -283,6 +283,7 @@ pub fn run_terms(ch: &mut Choices, verbose: bool) -> TermsReport {
             stop_den: 3,
             cjk_names: false,
             many_names: true,
+            domain_names: false,
         }
     } else if deep {
         GenParams {
@@ -294,6 +295,7 @@ pub fn run_terms(ch: &mut Choices, verbose: bool) -> TermsReport {
             stop_den: 8,
             cjk_names: false,
             many_names: false,
+            domain_names: false,
         }
     } else if wide {
         GenParams {
@@ -305,6 +307,7 @@ pub fn run_terms(ch: &mut Choices, verbose: bool) -> TermsReport {
             stop_den: 3,
             cjk_names: false,
             many_names: false,
+            domain_names: false,
         }
     } else {
         GenParams {
@@ -316,8 +319,10 @@ pub fn run_terms(ch: &mut Choices, verbose: bool) -> TermsReport {
             stop_den: 3,
             cjk_names: false,
             many_names: false,
+            domain_names: false,
         }
     };
+    let gp = GenParams { domain_names: !huge && ch.chance(1, 4), ..gp };
     // caller threads: in "hop" runs some values are built, hashed or compared on another thread
     // (one at a time: the simulated thread that runs next is a decision of the schedule)
     let hops = ch.chance(1, 5);
